@@ -156,10 +156,15 @@ func genDet(h *vh.H, i int) string {
 	cfg := cfgFor(h, "skel")
 	cfg.MaxPkgs, cfg.MaxFiles = 4, 4
 	cfg.NestedPkgs = true
+	// enum in / notIn rules with a repeated option (bare + prefixed): a list built from a Go map would change order
+	cfg.EnumInRules = h.Chance(2, 3)
 	g := j5sgen.New(h.Rng, cfg)
 	b := g.Bundle()
 	if h.Chance(1, 6) {
 		g.AddImpliedClash(b)
+	}
+	if g.EnumInRuleCount > 0 {
+		h.Count("det.gen.enum-in-repeat")
 	}
 	v := randomVariant(h.Rng, b)
 	style := uint64(0)
